@@ -502,7 +502,28 @@ var ruleF3 = &Rule{
 						}
 					}
 					if decode != nil {
+						// function values handed to the goroutine's function by the go statement itself
+						var bound []ssa.CallInstruction
+						for _, gb := range gf.Blocks {
+							for _, gi := range gb.Instrs {
+								ci, ok := gi.(ssa.CallInstruction)
+								if !ok || ci.Common().IsInvoke() {
+									continue
+								}
+								if p, ok := ci.Common().Value.(*ssa.Parameter); ok {
+									for i, q := range gf.Params {
+										if q == p && i < len(gs.Common().Args) {
+											dynCallees[ci] = funcArgOf(gs.Common().Args[i]).fns
+											bound = append(bound, ci)
+										}
+									}
+								}
+							}
+						}
 						judge(ssaName(fn), decode, gs.Pos())
+						for _, ci := range bound {
+							delete(dynCallees, ci)
+						}
 						continue
 					}
 					if len(dyn) == 0 {
